@@ -6,9 +6,9 @@
 (* touches -- edits on unrelated containers commute and do not influence each   *)
 (* other's acceptance, so the connected histories are the ones in which the     *)
 (* clone's copy of a container is exercised by a later edit.                    *)
-(*   Plan = set of <<small, P, Q, pairs>>: universe (SmallEdits or Edits), at    *)
-(*   most P pre-edits, between 1 and Q post-edits, and whether post-edit target *)
-(*   vectors are all of {both,o,c}^n or only the ones in TgtVecs.               *)
+(*   Plan = set of <<small, P, Q, tg>>: universe (SmallEdits or Edits), at most *)
+(*   P pre-edits, between 1 and Q post-edits, targets: "all" = every target of  *)
+(*   one post-edit / the vectors TgtVecs for two, "both" = both problems only.  *)
 EXTENDS ModelClone, Json, IOUtils, SequencesExt
 CONSTANTS Tier      \* "quick" | "thorough"
 \* two families of histories: "std" (Problem / ContingentProblem / HierarchicalProblem share the edits
@@ -16,8 +16,9 @@ CONSTANTS Tier      \* "quick" | "thorough"
 Tgts == {"both", "o", "c"}
 \* target vectors for two post-edits: the second edit probes what the first did to the other problem
 TgtVecs == {<<"o", "c">>, <<"c", "o">>, <<"o", "both">>, <<"c", "both">>, <<"both", "both">>, <<"both", "o">>}
-Plan == IF Tier = "quick" THEN {<<FALSE, 1, 1>>, <<TRUE, 1, 2>>, <<TRUE, 2, 1>>}
-        ELSE {<<FALSE, 1, 1>>, <<FALSE, 2, 1>>, <<TRUE, 1, 2>>, <<FALSE, 0, 2>>}
+Plan == IF Tier = "quick" THEN {<<FALSE, 1, 1, "all">>, <<TRUE, 1, 2, "all">>, <<TRUE, 2, 1, "all">>}
+        ELSE {<<FALSE, 1, 1, "all">>, <<TRUE, 1, 2, "all">>, <<TRUE, 2, 1, "all">>, <<FALSE, 0, 2, "all">>,
+              <<TRUE, 3, 1, "both">>}
 
 Loci(e) == {Locus(e), Locus2(e)}
 Univ(k, small) == IF small THEN SmallEdits(k) ELSE Edits(k)
@@ -27,14 +28,15 @@ Chains(k, small, n) ==
    IF n = 1 THEN {<<e>> : e \in Univ(k, small)}
    ELSE LET prev == Chains(k, small, n - 1) IN
         UNION {{Append(s, e) : e \in {x \in Univ(k, small) : \E i \in DOMAIN s : Loci(x) \cap Loci(s[i]) # {}}} : s \in prev}
-TgtV(n) == IF n = 1 THEN {<<t>> : t \in Tgts} ELSE IF n = 2 THEN TgtVecs ELSE {[i \in 1..n |-> "both"]}
-HistOf(k, small, P, Q) ==
+TgtV(n, tg) == IF tg = "both" \/ n > 2 THEN {[i \in 1..n |-> "both"]}
+              ELSE IF n = 1 THEN {<<t>> : t \in Tgts} ELSE TgtVecs
+HistOf(k, small, P, Q, tg) ==
    UNION {UNION {{[pre |-> SubSeq(s, 1, i),
                    post |-> [j \in 1..(Len(s) - i) |-> [e |-> s[i + j], tgt |-> tv[j]]]]
-                  : tv \in TgtV(Len(s) - i)}
+                  : tv \in TgtV(Len(s) - i, tg)}
                  : i \in {i \in 0..P : Len(s) - i >= 1 /\ Len(s) - i <= Q}}
           : s \in UNION {Chains(k, small, n) : n \in 1..(P + Q)}}
-Histories(k) == UNION {HistOf(k, pl[1], pl[2], pl[3]) : pl \in Plan}
+Histories(k) == UNION {HistOf(k, pl[1], pl[2], pl[3], pl[4]) : pl \in Plan}
 \* small = every edit of the history is one of the representatives (the driver replays all of those)
 Tag(SmallU, h) == [pre |-> h.pre, post |-> h.post,
                    small |-> (\A i \in DOMAIN h.pre : h.pre[i] \in SmallU) /\ (\A i \in DOMAIN h.post : h.post[i].e \in SmallU)]
